@@ -9,6 +9,11 @@ Open Scope string_scope.
 Lemma gen_cfg_ok : cfg_ok gen_cfg = true.
 Proof. vm_compute. reflexivity. Qed.
 
+(** the column an assignment targets reaches the engine as an identifier (quoted when its name needs it: a blank,
+    a reserved word), as the model's [stmt_keys] assume (fix commit for `SET full name = ...`) *)
+Lemma gen_set_key_is_identifier : set_key_is_identifier = true.
+Proof. reflexivity. Qed.
+
 (** the property at full strength: every table object, every table contents, every update/delete call
     whose predicate and assigned values are written with table['c'] / col('c') references (or as a SQL
     string) over existing columns: executing the lazily built statement gives exactly the rows the
